@@ -57,6 +57,10 @@ def run(tier):
     beh = beh + thin_sel
     bf = vlib.write_ndjson(os.path.join(sc, "beh.ndjson"), beh)
     res = vlib.harness(["replay", "cfgcenter", bf, "--shards", 14], timeout=6000)
+    inc = sum(1 for r in res if r.get("kind") == "result" and r.get("inconclusive"))
+    c.cov["inconclusive_real_clock_behaviours"] = inc
+    if inc * 3 > len(beh):
+        raise ToolError("%d of %d real-clock behaviours fell behind their schedule (loaded machine): nothing to say" % (inc, len(beh)))
     vlib.replay_results(c, beh, res, keyfn, "ConfigActor notifications",
                         nontrivial=lambda b: any(s["op"] == "listen" and not s["answered"] for s in b["steps"]))
     c.sample({"behaviour": [(s["op"], s.get("key") or s.get("id") or s.get("client")) for s in beh[0]["steps"]]})
